@@ -958,6 +958,8 @@ func init() {
 		checkValueLookup(r, prog, a, "c05") // consumption: gateway Config and the unknown-value branch
 		r.importing = "C11"
 		checkBudgetTransport(r, prog, a, prog.GrammarSSA.Func("newParser"), prog.GrammarSSA.Func("MaxExpressions"), "c11")
+		r.importing = "C10"
+		checkRecoverDiscipline(r, prog, "c10") // a budget that is exceeded ends the creation with an error: the abort is recovered, by default
 		r.importing = ""
 		r.Technique = "field-flow analysis per option field (enumerated from the options type): constructor closure shape, symbolic reconstruction of the Evaluator literal and of the option list Evaluate re-issues, variadic-forwarding census over every call that takes ...Option, consumption sites imported from C05/C11"
 		r.Explain = "Decides: every option constructor performs exactly one unconditional store, of its own parameter, into its own field and reads no option field (so distinct options commute and the last of repeated options wins — getOpts applies them in slice order over the defaults); every field of the options type has a pipeline; CreateEvaluator copies tag name, hook and unknown value from getOpts(its options) into Evaluator fields that have no other writer; every Evaluate re-issues exactly those (the unknown value iff configured); every call between functions taking ...Option forwards the caller's options (itself or a fresh extended copy); the defaults are the documented neutral values (\"bexpr\", 0, nil, nil); tag name and hook reach pointerstructure's Config at both lookups, the unknown value is consulted only on ErrNotFound, the budget reaches the parser unmodified iff non-zero. NOT decided: what a user hook does with the value it is given."
